@@ -2,9 +2,11 @@
    Statements over the executable model M_Attest (transcription of x/crosschain/keeper:
    Claim -> checkBridgerIsOracle -> Attest -> TryAttestation, ExecuteClaim, and the oracle
    membership operations), for every configuration and every operation list. *)
+From Coq Require Import String.
 From Coq Require Import ZArith List Bool.
 From FxV Require Import gen.Gen_Attest model.M_Attest proofs.P_Attest proofs.P_AttestGen.
 Import ListNotations.
+Open Scope list_scope.
 Open Scope Z_scope.
 
 (* every operation leaves the last observed event nonce unchanged or advances it by exactly one *)
@@ -49,17 +51,22 @@ Print Assumptions C01_observed_only_next.
 (* ---- PRIMARY (the code as it is since /repo 9161b71: UnbondedOracle keeps the per-oracle cursor, no cursor lift;
         both facts are probed on the real keeper on every run and arrive as c_unbond_del / c_cursor_clamp) ---- *)
 
-(* an oracle never has two accepted votes for one nonce — every history, every oracle, incl. unbond + re-bond *)
+(* an oracle never has two accepted votes for one nonce — every history, every oracle, incl. unbond + re-bond and
+   genesis export + import *)
 Theorem C01_oracle_no_second_vote : forall c h w,
   c_unbond_del c = false ->
   incr (nonces_of w (vlog (run c init h))) /\ NoDup (nonces_of w (vlog (run c init h))).
 Proof. exact votes_increasing_fixed. Qed.
 Print Assumptions C01_oracle_no_second_vote.
 
-(* ... nor skips one: the nonces of its accepted votes are consecutive, for every history (a returning oracle
-   continues after its last vote, like one that was offline) *)
+(* ... nor skips one: the nonces of its accepted votes are consecutive (a returning oracle continues after its last
+   vote, like one that was offline) in every history that does not restart the chain from an exported genesis.
+   At such a restart InitGenesis rebuilds the cursors from the stored votes, so an oracle lagging behind
+   lastObserved-1 restarts there like a newly registered one (by design, comment in genesis.go): read as a new start,
+   not as a skipped nonce *)
 Theorem C01_oracle_contiguous : forall c h w,
   c_unbond_del c = false -> c_cursor_clamp c = false ->
+  guarded c no_restart init h ->
   consec (nonces_of w (vlog (run c init h))) /\ NoDup (nonces_of w (vlog (run c init h))).
 Proof. exact votes_contiguous_fixed. Qed.
 Print Assumptions C01_oracle_contiguous.
@@ -92,7 +99,7 @@ Print Assumptions C01_prefix_no_second_vote_guarded.
 
 Theorem C01_prefix_contiguous_guarded : forall c h w,
   c_cursor_clamp c = false ->
-  guarded c (no_unbond_of w) init h ->
+  guarded c (safe_contig c w) init h ->
   consec (nonces_of w (vlog (run c init h))) /\ NoDup (nonces_of w (vlog (run c init h))).
 Proof. exact votes_contiguous. Qed.
 Print Assumptions C01_prefix_contiguous_guarded.
@@ -137,6 +144,35 @@ Theorem C01_executed_never_pending : forall c h n,
   In n (effects (run c init h)) -> aget Z.eqb n (pending (run c init h)) = None.
 Proof. exact executed_never_pending. Qed.
 Print Assumptions C01_executed_never_pending.
+
+(* ---- lifecycle: genesis export + import (ExportGenesis, wipe, InitGenesis) ---- *)
+
+(* it preserves the last observed nonce, the attestations, the logs and the oracle records; the parked claims are not
+   exported (so they run zero times: "at most once" holds; the loss itself is finding C05-2 of another property);
+   the total is recomputed after the records are written; every stored voter's cursor is rebuilt at or beyond the nonce
+   it voted for *)
+Theorem C01_export_import : forall c s,
+  let s' := export_import c s in
+  last_obs s' = last_obs s /\ atts s' = atts s /\ applied s' = applied s /\ effects s' = effects s /\
+  vlog s' = vlog s /\ oracles s' = oracles s /\ proposal s' = proposal s /\
+  pending s' = [] /\ last_total s' = online_power (oracles s') /\
+  (forall k a v, aget keq k (atts s) = Some a -> In v (a_votes a) -> fst k <= cursor c s' v).
+Proof. exact export_import_effect. Qed.
+Print Assumptions C01_export_import.
+
+(* C01_exec_once, C01_one_winner, C01_applied_log and C01_oracle_no_second_vote above quantify over histories WITH
+   export + import steps; a concrete one: *)
+Theorem C01_export_import_nonvacuous :
+  let s := run cfg1 init h_export in
+  last_obs s = 2 /\ pending s = [] /\ effects s = [1] /\ last_total s = 750 /\
+  snd (step cfg1 s (Exec 1 true)) = Err E_NoClaim /\
+  snd (step cfg1 s (Exec 2 true)) = Err E_NoClaim /\
+  snd (step cfg1 s (Vote 0 3 3 true [])) = Err E_NonContig /\
+  snd (step cfg1 s (Vote 0 4 4 true [])) = Ok /\
+  snd (step cfg1 s (Vote 1 3 3 true [])) = Ok /\
+  snd (step cfg1 s (Vote 2 2 2 true [])) = Ok.
+Proof. exact example_export. Qed.
+Print Assumptions C01_export_import_nonvacuous.
 
 (* ---- real end-block steps (EndBlock = M_EndBlock.slashing on this model's records and confirm sets, then
         createOracleSetRequest): they never touch events, tallies, cursors or parked claims ---- *)
